@@ -350,6 +350,46 @@ pub fn cross_size(ctx: &Ctx, rep: &mut Report) {
         }
         rep.count("cross_size_walks", 1);
     }
+    // the same operations while a thread is being TORN DOWN: from the destructor of a
+    // thread-local object registered before the thread's first transform, i.e. after the
+    // crate's own per-thread state (if any) has been destroyed; each operation has its oracle
+    let nt = ctx.sz(96, 1200);
+    let r = par_for(nt, ncpu(), |ti, rep| {
+        let mut rng = rng_for(ctx.seed, &format!("c13-teardown-{}", ti));
+        let n = 1usize << rng.gen_range(1..=10);
+        let op = (ti % 4) as u32;
+        let a: Vec<i64> = (0..n).map(|_| rng.gen_range(-16384i64..=16384)).collect();
+        let b: Vec<i64> = (0..n).map(|_| rng.gen_range(-1024i64..=1024)).collect();
+        let (a2, b2) = (a.clone(), b.clone());
+        let warm = ti % 3 != 2; // a third of the threads never used a transform before
+        let res = crate::util::run_at_thread_exit(
+            move || {
+                if warm {
+                    let w: Vec<(f64, f64)> = (0..n).map(|i| (i as f64, 0.0)).collect();
+                    let f_ = vh::cfft(&w);
+                    let _ = vh::cifft(&f_);
+                    let _ = vh::csplit(&f_);
+                }
+            },
+            move || {
+                let mut rep = Report::new();
+                history_op(op, &a2, &b2, "thread exit", &mut rep);
+                rep.violations.first().map(|v| format!("{}: {}", v.signature, v.detail))
+            },
+        );
+        rep.evaluations += 1;
+        match res {
+            Ok(None) => {
+                rep.count("operations_during_thread_exit", 1);
+                rep.nontrivial(format!("teardown|{}|{}|{}", n, op, warm).as_bytes());
+            }
+            Ok(Some(what)) => rep.violation("fft:wrong-during-thread-exit", format!("operation {} at n={} run from a thread-local destructor (thread {} used transforms before): {}", ["split", "inverse(forward)", "merge", "product"][op as usize], n, if warm { "had" } else { "had not" }, what), json!({"kind": "teardown", "n": n, "op": op, "warm": warm, "ti": ti})),
+            Err(e) if e.contains("did not run") => rep.inconclusive(e),
+            Err(e) => rep.violation("panic:fft-during-thread-exit", format!("operation {} at n={} panicked inside a thread-local destructor: {}", op, n, e), json!({"kind": "teardown", "n": n, "op": op, "warm": warm, "ti": ti})),
+        }
+    });
+    rep.merge(r);
+    rep.require("operations_during_thread_exit", 50);
     // call histories in fresh threads
     let nh = ctx.sz(200, 4000);
     let r = par_for(nh, ncpu(), |hi, rep| run_history(ctx.seed, hi, rep));
